@@ -70,7 +70,12 @@ pub fn cli_main(lookup: &dyn Fn(&str) -> Option<Box<dyn runner::Prop>>, special:
         "--seq" => {
             let id = &args[2];
             let tier = Tier::parse(&args[3]).unwrap();
-            let idxs: Vec<u64> = args[4].split(',').filter(|s| !s.is_empty()).map(|s| s.parse().unwrap()).collect();
+            // a long history comes in a file (@path): one argument cannot hold more than 128 KiB
+            let list = match args[4].strip_prefix('@') {
+                Some(path) => std::fs::read_to_string(path).expect("history file"),
+                None => args[4].clone(),
+            };
+            let idxs: Vec<u64> = list.split(',').filter(|s| !s.trim().is_empty()).map(|s| s.trim().parse().unwrap()).collect();
             let prop = lookup(id).expect("unknown property");
             std::process::exit(runner::seq_main(prop, tier, &idxs, false));
         }
@@ -245,7 +250,7 @@ pub fn c12_main(tier: Tier) -> i32 {
                 "distinct_nontrivial": rr.nontrivial,
                 "rule": prop.rule(),
                 "exhaustive": true,
-                "explanation": format!("BFS to fixpoint over canonical keys (real global::Client state id x share id) with {} events per state (the 12 letters, a Set Error Info with a non-zero code, a deactivate-all naming another share id, a font list sent by the server, a font map with mapFlags 0, and every ordered pair of the 14 slow-path letters packed into one frame), every transition executed by replaying the history on a fresh real client; plus every history of length <= depth without merging, whose final keys must all lie in the BFS fixpoint", n_ev),
+                "explanation": format!("BFS to fixpoint over canonical keys (real global::Client state id x share id) with {} events per state (the 12 letters, a Set Error Info with a non-zero code, a deactivate-all naming another share id, a font list sent by the server, a font map with mapFlags 0, a share-control PDU of a type the client does not implement, and every ordered pair of the 15 slow-path letters packed into one frame; in a packed frame everything in front of the unimplemented PDU counts, what follows it may be lost), every transition executed by replaying the history on a fresh real client; plus every history of length <= depth without merging, whose final keys must all lie in the BFS fixpoint", n_ev),
                 "violations_detail": viols,
                 "known_findings_matched": known,
             }),
